@@ -242,6 +242,10 @@ def run(ctx) -> int:
         for lf in LEAVES[:23]:
             ds += [lf, lf + "after\n", lf + "\nafter\n", quote(lf) + ">\n\nmore\n"]
         ds += [">     code\n>\n\nmore\n", "Foo\nbar\n===\n", "> Foo\n> bar\n> ---\nbaz\n", ">     code\n>\n>\n\n\nmore\n"]
+        # a definition-like line directly followed by a block start (terminator rules inside an item whose content
+        # column is 4 or more), and lazy lines after a quote that matter only as lazy lines
+        ds += ["[bar]:\n***\n", "[bar]:\n```\nx\n```\n", "[bar]:\n<div>\n", "[bar]:\n# h\n", "[bar]:\n> q\n", "[bar]: /u\n***\n",
+               "[bar]:\n/u\n***\n", "> a\n===\n", "> ```\nfoo\n", "> a\n---\n", "> - a\nb\n===\n"]
         for d in ds:
             d = clean(d)
             cfg, md = mds[0]
